@@ -430,10 +430,27 @@ def packChunk(msg):
     lines.append(b'\r\n')
     return (b''.join(lines))
 
+def findEol(raw, eols):
+    """
+    Returns duple (index, eol) of the earliest occurrence in raw of any of eols.
+    When more than one eol starts at the same index the longest one wins.
+    Returns (-1, None) when none of eols is found
+    """
+    found = -1
+    which = None
+    for eol in eols:
+        index = raw.find(eol)  # not found index == -1
+        if index >= 0 and (found < 0 or index < found or
+                           (index == found and len(eol) > len(which))):
+            found = index
+            which = eol
+    return (found, which)
+
+
 def parseLine(raw, eols=(CRLF, LF, CR ), kind="event line"):
     """
     Generator to parse  line from raw bytearray
-    Each line demarcated by one of eols
+    Each line demarcated by the earliest of eols
     kind is line type string for error message
 
     Yields None If waiting for more to parse
@@ -443,11 +460,14 @@ def parseLine(raw, eols=(CRLF, LF, CR ), kind="event line"):
 
     Raise error if eol not found before MAX_LINE_SIZE
     """
+    skip = False  # True means last line ended with CR as last byte of raw
     while True:
-        for eol in eols:  # loop over eols unless found
-            index = raw.find(eol)  # not found index == -1
-            if index >= 0:
-                break
+        if skip and raw:  # CR LF may have been split across raw extensions
+            if raw[:1] == LF:
+                del raw[:1]  # LF belongs to eol of last line
+            skip = False
+
+        index, eol = findEol(raw, eols)
 
         if index < 0:  # not found
             if len(raw) > MAX_LINE_SIZE:
@@ -461,6 +481,8 @@ def parseLine(raw, eols=(CRLF, LF, CR ), kind="event line"):
 
         line = raw[:index]
         index += len(eol)  # strip eol
+        if eol == CR and index == len(raw) and CRLF in eols:
+            skip = True  # LF of CR LF may be yet to come
         del raw[:index] # remove used bytes
         (yield line)
     return
@@ -476,10 +498,7 @@ def parseLeader(raw, eols=(CRLF, LF), kind="leader header line", headers=None):
     """
     headers = headers if headers is not None else cimdict()
     while True:  # loop until entire heading indicated by empty line
-        for eol in eols:  # loop over eols unless found
-            index = raw.find(eol)  # not found index == -1
-            if index >= 0:
-                break
+        index, eol = findEol(raw, eols)  # earliest eol
 
         if index < 0:  # not found
             if len(raw) > MAX_LINE_SIZE:
